@@ -69,5 +69,14 @@ CHECKS.update({
           "Stores mixing never-started, Completed, Failed, fresh Running (reachable write-prefix states) and stale Running plans (all state times shifted past the maximum through the vault's own calls) under WithMaxLastUpdate(1 min / default / 2 h) and WithNoRecovery: untouched plans must be byte-for-byte unchanged with zero writes and invocations, fresh Running plans must reach a terminal state, stale ones must be Failed/ExceedRecovery with nothing Running and no invocation.",
           CRASH_NOTE + " Ages are one minute away from the maximum; equality is not explored.", "DESIGN.md §C11"),
 })
+
+CHECKS.update({
+ "C19": c("exploration", "runtime reference-enumerator monitor: walk.Plan yields compared by pointer identity, order and ancestor chains with an independent recursive enumeration; every early-stop position",
+          "Quick samples, thorough enumerates completely, a box of 8.4M plan shapes (group subsets x nil/empty/1/2 blocks, sequences, actions) plus random larger shapes; chains are copied at yield time and the yielded slices are re-read after the walk (aliasing), and the consumer stops after every possible number of items.",
+          "Trusted base: the independent enumerator follows the property statement; shapes with nil entries inside slices are not generated (statement silent).", "DESIGN.md §C19"),
+ "C20": c("exploration", "runtime reference-interpreter monitor: every builder call applied to the real builder and to a reference interpreter, compared after each call",
+          "PRNG call histories over New/Reset/AddChecks/AddBlock/AddSequence/AddAction/Up/Plan/Err with valid and invalid arguments: no panic, Err()==nil iff the interpreter has no error, the first error is sticky until Reset, nothing changes while an error is pending, an emitted plan is deep-equal to the directly constructed hierarchy, second Plan() fails.",
+          "Trusted base: the reference interpreter follows the property statement; inputs on which the statement is silent are not generated.", "DESIGN.md §C20"),
+})
 BUILT = set(CHECKS)
 NOT_APPLICABLE = {f"C{i:02d}": "check under construction in this round (runtime monitor designed in DESIGN.md, not yet registered)" for i in range(1, 21) if f"C{i:02d}" not in BUILT}
